@@ -461,8 +461,9 @@ func Call(entry string, p *path.Path, doc any, o Opts) *Out {
 // EntryMonitor (single-threaded checks): every eighth Query call that succeeds
 // without WithSilent - a complete, error-free evaluation - on inputs whose
 // traversal order is determined (no object with several members, no
-// .keyvalue()) is followed by First and Exists on the same inputs: First
-// returns the first item (nil for none), Exists says whether there is one.
+// .keyvalue()) is followed by First, Exists and the same Query again on the
+// same inputs: First returns the first item (nil for none), Exists says
+// whether there is one, and the repetition returns the same items.
 // A disagreement is reported like a hook fault, whatever property's workload
 // issued the call.
 var EntryMonitor bool
@@ -487,7 +488,8 @@ func entryCrossCheck(p *path.Path, doc any, o Opts, q *Out) {
 	}
 	f := CallMonitored("first", p, doc, o, NewMon())
 	e := CallMonitored("exists", p, doc, o, NewMon())
-	if f.Class == Panic || e.Class == Panic {
+	q2 := CallMonitored("query", p, doc, o, NewMon())
+	if f.Class == Panic || e.Class == Panic || q2.Class == Panic {
 		return
 	}
 	var want any
@@ -500,6 +502,9 @@ func entryCrossCheck(p *path.Path, doc any, o Opts, q *Out) {
 	}
 	if e.Class != OK || e.Bool != (len(q.Items) > 0) {
 		faults = append(faults, fmt.Sprintf("entry-points-disagree: Query succeeded with %d items but Exists returned %s", len(q.Items), e.Summary()))
+	}
+	if q2.Class != OK || CanonListTyped(q2.Items) != CanonListTyped(q.Items) {
+		faults = append(faults, fmt.Sprintf("entry-points-disagree: Query returned %s and, repeated on the same inputs, %s", q.Summary(), q2.Summary()))
 	}
 	if len(faults) > 0 {
 		q.Faults = append(q.Faults, faults...)
